@@ -247,3 +247,22 @@ package memdb
 //@   safety off
 //@   ensures [C14:a-new-table-is-empty] result.n == 0 && result.kvSize == 0 && len(result.kvData) == 0 && result.maxHeight == 1
 //@   ensures [C14:the-head-node-of-a-new-table-has-full-height] len(result.nodeData) == 16 && result.nodeData[3] == 12
+
+// What the memdb iterator shows is what its last move left (fill's postconditions above say what that is): valid means
+// standing on a node, and Key / Value / Error hand out the iterator's own fields.
+//@ func (*dbIter).Valid
+//@   props C02 C14
+//@   safety off
+//@   ensures [C02,C14:valid-means-standing-on-a-node] result <==> i.node != 0
+//@ func (*dbIter).Key
+//@   props C02 C14
+//@   safety off
+//@   ensures [C02,C14:the-key-shown-is-the-one-the-last-move-left] sameslice(result, i.key)
+//@ func (*dbIter).Value
+//@   props C02 C14
+//@   safety off
+//@   ensures [C02,C14:the-value-shown-is-the-one-the-last-move-left] sameslice(result, i.value)
+//@ func (*dbIter).Error
+//@   props C02 C14
+//@   safety off
+//@   ensures [C02,C14:the-error-shown-is-the-iterators-own] result == i.err
